@@ -623,6 +623,8 @@ static void worker_main(const Property &P, const CheckArgs &a, int lane, int nla
 	Counters total;
 	uint64_t evals = 0, runs = 0, discarded = 0;
 	std::vector<json> samples;
+	std::unordered_set<uint64_t> seen_states; // worker-local filter: only new state fingerprints are reported
+	double t_gen = 0, t_judge = 0;
 	for (uint64_t idx = start_idx;; idx += nlanes) {
 		if (a.max_runs && idx >= a.max_runs)
 			break;
@@ -631,11 +633,15 @@ static void worker_main(const Property &P, const CheckArgs &a, int lane, int nla
 		write_all(fd, "S " + std::to_string(idx) + "\n");
 		alarm(120);
 		uint64_t seed = run_seed(a.seed, P.id, idx);
+		double tg0 = now_s();
 		json plan = P.generate(seed, idx, a.tier);
 		plan["property"] = P.id;
 		plan["seed"] = seed;
 		plan["idx"] = idx;
+		double tg1 = now_s();
 		JudgeOut o = P.judge(plan);
+		t_gen += tg1 - tg0;
+		t_judge += now_s() - tg1;
 		// determinism re-check on a sample of runs
 		bool recheck = (idx % 64) < 2;
 		if (recheck) {
@@ -657,6 +663,14 @@ static void worker_main(const Property &P, const CheckArgs &a, int lane, int nla
 			line += " " + std::to_string(h);
 		line += "\n";
 		write_all(fd, line);
+		{
+			std::string tl = "T";
+			for (uint64_t h : o.states)
+				if (seen_states.size() < 2000000 && seen_states.insert(h).second)
+					tl += " " + std::to_string(h);
+			if (tl.size() > 1)
+				write_all(fd, tl + "\n");
+		}
 		for (auto &v : o.viol) {
 			json pv = v.plan.is_null() ? plan : v.plan;
 			pv["property"] = P.id;
@@ -679,6 +693,8 @@ static void worker_main(const Property &P, const CheckArgs &a, int lane, int nla
 	}
 	total["runs"] = runs;
 	total["discarded"] = discarded;
+	total["time.generate_ms"] = (uint64_t)(t_gen * 1000);
+	total["time.judge_ms"] = (uint64_t)(t_judge * 1000);
 	for (auto &kv : total)
 		write_all(fd, "K " + kv.first + " " + std::to_string(kv.second) + "\n");
 	write_all(fd, "D\n");
@@ -746,7 +762,7 @@ int run_check(const CheckArgs &a)
 
 	Counters total;
 	uint64_t evaluations = 0, runs = 0;
-	std::unordered_set<uint64_t> distinct;
+	std::unordered_set<uint64_t> distinct, states;
 	std::vector<Candidate> cands;
 	std::map<std::string, uint64_t> cls_counts;
 	std::vector<json> samples;
@@ -775,6 +791,12 @@ int run_check(const CheckArgs &a)
 			}
 			s.last_done = idx;
 			s.cur_idx = -1;
+		} else if (t == 'T') {
+			std::istringstream in(line.substr(1));
+			uint64_t d;
+			while (in >> d)
+				if (states.size() < DISTINCT_CAP)
+					states.insert(d);
 		} else if (t == 'V') {
 			json j = json::parse(line.substr(2));
 			Candidate c;
@@ -997,6 +1019,8 @@ int run_check(const CheckArgs &a)
 		cov["distinct_nontrivial"] = distinct.size();
 		cov["rule"] = P.rule + (distinct_capped ? " (distinct count capped at 8e6 entries: lower bound)" : "");
 		cov["samples"] = samples;
+		cov["distinct_context_states"] = states.size();
+		cov["states_measure"] = "distinct canonical dumps (whole context tree through public getters: names, types, sizes, values, titles, reset/modified markers, annotations) observed after any step of any execution";
 		cov["runs"] = runs;
 		cov["runs_per_hour"] = t_explore > 0 ? (uint64_t)(runs * 3600.0 / t_explore) : 0;
 		cov["seeds_per_hour"] = cov["runs_per_hour"];
